@@ -20,7 +20,10 @@ WhyRepair(c, o) ==
          ELSE IF o.attrok # 1 THEN "attributes"
          ELSE IF c.mode = "somas" /\ o.R # SomasOf(c.P) THEN "somas-not-linked-to-the-first-root"
          ELSE ""
-Why(c, o) == IF o.err # "" THEN "raised-" \o o.err ELSE IF c.op = "check" THEN WhyCheck(c, o) ELSE WhyRepair(c, o)
+\* a later plain read of the same file (o.R2, when made) still finds the table as the file has it, with the warning
+WhyAgain(c, o) == IF Len(o.R2) = 0 THEN "" ELSE IF o.R2 # c.P \/ o.warned2 # 1 THEN "later-plain-read-of-the-same-file-differs" ELSE ""
+Why(c, o) == IF o.err # "" THEN "raised-" \o o.err ELSE IF c.op = "check" THEN WhyCheck(c, o)
+             ELSE LET w == WhyRepair(c, o) IN IF w # "" THEN w ELSE WhyAgain(c, o)
 VARIABLES l, bad
 Init == l = 0 /\ bad = <<>>
 Next == /\ l < Len(Obs)
